@@ -61,6 +61,10 @@ def cases(tier, seed):
         for hdr in itertools.permutations(HNAMES, k):
             for n in range(1, k + 2):
                 yield {"kind": "headers", "hdr": list(hdr), "n": n}
+    # duplicate header names (also names that only collide after cleaning): '#name' addresses the FIRST column carrying the name
+    for hdr in (["id", "amount", "id"], ["id", " id;", "x"], ["a", "a"], ["x", "a", "b", "a"]):
+        for n in range(1, len(hdr) + 2):
+            yield {"kind": "headers", "hdr": hdr, "n": n, "dups": True}
     if tier == "quick":
         # CsvPaths delivery (serial and breadth-first) under non-default dialects: single records of <=2 cells over the sub-alphabet
         for a in r2:
@@ -154,7 +158,11 @@ def run_case(case):
     data = [f"d{i}" for i in range(n)]
     path = sandbox.write_csv([hdr, data])
     comps = []
-    for k, nm in enumerate(hdr):
+    cleaned = [clean(h) for h in hdr]
+    first = {}
+    for k, nm in enumerate(cleaned):
+        first.setdefault(nm, k)
+    for k, nm in enumerate(cleaned):
         ref = f'#"{nm}"' if " " in nm else f"#{nm}"
         comps.append(f"@n{k} = {ref}")
         comps.append(f"@i{k} = #{k}")
@@ -164,8 +172,10 @@ def run_case(case):
     else:
         for k in range(len(hdr)):
             want = data[k] if k < n else None
-            if o["vars"].get(f"n{k}") != want:
-                bad("#name value", o["vars"].get(f"n{k}"), want, cstr)
+            fk = first[cleaned[k]]
+            wantn = data[fk] if fk < n else None
+            if o["vars"].get(f"n{k}") != wantn:
+                bad("#name value", o["vars"].get(f"n{k}"), wantn, cstr)
             if o["vars"].get(f"i{k}") != want:
                 bad("#index value", o["vars"].get(f"i{k}"), want, cstr)
         if o["errors"]:
